@@ -106,7 +106,46 @@ impl Call {
 /// Look-alike pairs (A, B): B has A's length and differs from it in one byte inside a name that is only
 /// reached through pointers (name-shaped bytes in opaque rdata). A verdict on A must not carry over to B.
 pub fn lookalike_pairs(rng: &mut Rng) -> Vec<(Call, Call)> {
+    use crate::gen::hostile::Asm;
     let mut out = vec![];
+    // hand-built: every pointer of the packet designates the same name-shaped bytes inside opaque rdata (A), and
+    // the look-alike (B) damages exactly those bytes, or moves a label boundary of the question across the target
+    for _ in 0..4 {
+        let l1 = gen_label(rng, &Cfg { long_names: false, mixed_case: false, ..Default::default() });
+        let hidden = Name(vec![l1, b"com".to_vec()]).to_wire();
+        let n_rec = rng.range(1, 4) as u16;
+        let build = |hidden: &[u8]| {
+            let mut a = Asm::header(0x1111, 0x8180, 1, 1 + n_rec, 0, 0);
+            a.label(b"q").root().u16(1).u16(1);
+            a.label(b"t").root().rrfix(T_TXT, 5, hidden.len() as u16);
+            let t = a.pos();
+            a.raw(hidden);
+            for i in 0..n_rec {
+                if i % 2 == 0 {
+                    a.ptr(t);
+                } else {
+                    a.label(b"w").ptr(t);
+                }
+                a.rrfix(T_A, 9, 4).raw(&[10, 0, 0, i as u8]);
+            }
+            a.done()
+        };
+        let good = build(&hidden);
+        let mut h2 = hidden.clone();
+        let k = rng.below(h2.len() - 1);
+        h2[k] = *rng.pick(&[0x40u8, b'.', 0x00, 0xc0, 0x3f]);
+        let bad = build(&h2);
+        if bad != good {
+            out.push((Call::Parse(good.clone()), Call::Parse(bad)));
+        }
+        // question variant: same bytes except that the question swallows the boundary the pointers rely on
+        let mut g2 = vec![0x12, 0x34, 0x81, 0x80, 0, 1, 0, 1, 0, 0, 0, 0];
+        g2.extend_from_slice(b"\x07example\x03com\x00\x00\x01\x00\x01");
+        g2.extend_from_slice(&[0xc0, 20, 0, 1, 0, 1, 0, 0, 0, 60, 0, 4, 10, 0, 0, 1]);
+        let mut b2 = g2.clone();
+        b2[12..25].copy_from_slice(b"\x0bexamplexcom\x00");
+        out.push((Call::Parse(g2), Call::Parse(b2)));
+    }
     for _ in 0..12 {
         let cfg = Cfg { compress_eighths: 7, max_records: 8, alphabet: 3, ..Default::default() };
         let v = gen_valid(rng, &cfg);
